@@ -174,6 +174,55 @@ def setForm (h : Heap) (a : Nat) (name : String) : Res Unit :=
   | none => (h, .error .unknownForm)
   | some g => setFormTo h a g
 
+/-! #### the form setter as the source has it: the order of its effects is read from the AST of `StateVector.form.fset` on
+every run (`Generated.FormTables.formSetterSteps`) and interpreted here -/
+
+/-- `convert`: `self._data["form"](self, new_form)` — `Form.__call__` walks the route on a COPY and may raise on any leg;
+`store`: the converted values are written into the object's buffer; `commit`: `self._data["form"] = new_form` -/
+inductive FStep
+  | convert | store | commit
+deriving DecidableEq, Repr
+
+def FStep.ofString : String → Option FStep
+  | "convert" => some .convert
+  | "store" => some .store
+  | "commit" => some .commit
+  | _ => none
+
+/-- the extracted order (an unknown effect name leaves the list shorter: the theorems about it then no longer check) -/
+def formSteps : List FStep := FormTables.formSetterSteps.filterMap FStep.ofString
+
+/-- interpret the effects in order on the state vector `s` read on entry; `ferr k`: does the k-th conversion raise
+(a leg that needs the mu of a centre without body, a degenerate state with numpy told to raise, …) -/
+def runFormSteps : List FStep → Heap → SV → String → (Nat → Option Err) → Option Val → Nat → Res Unit
+  | [], h, _, _, _, _, _ => (h, .ok ())
+  | .convert :: rest, h, s, g, ferr, _, k =>
+    match ferr k with
+    | some e => (h, .error e)
+    | none => runFormSteps rest h s g ferr (some (mkConv s.form g s.val)) (k + 1)
+  | .store :: rest, h, s, g, ferr, p, k =>
+    match p with
+    | some v => runFormSteps rest (write h s.buf (.buf v)) s g ferr p k
+    | none => (h, .error .bad)
+  | .commit :: rest, h, s, g, ferr, p, k =>
+    runFormSteps rest (write h s.data (.dict (insert "form" (.form g) s.items))) s g ferr p k
+
+def noFail : Nat → Option Err := fun _ => none
+
+/-- `sv.form = name`, effects in source order, conversions failing as `ferr` says -/
+def setFormX (h : Heap) (a : Nat) (name : String) (ferr : Nat → Option Err := noFail) : Res Unit :=
+  match resolveForm name with
+  | none => (h, .error .unknownForm)
+  | some g =>
+    match getSV h a with
+    | none => (h, .error .bad)
+    | some s => runFormSteps formSteps h s g ferr none 0
+
+/-- the order that makes a failing form change atomic: the (one) conversion first, every write after it -/
+def atomicOrder : List FStep → Bool
+  | .convert :: rest => rest.all (· != .convert)
+  | _ => false
+
 /-- the environment: which rotations / offsets between two frames (given by name) raise, and with what — the centre of
 the target frame cannot be reached; no Earth-orientation data for the date under the 'error' policy (which rotations
 need them depends on what the Date object has cached, so this is an input of the model, not computed by it) -/
@@ -505,6 +554,30 @@ def copyFrame (h : Heap) (a : Nat) (name : String) : Res Nat :=
     match setFrame h n name with
     | (h, .error e) => (h, .error e)
     | (h, .ok ()) => (h, .ok n)
+
+/-- `new = sv.frame.transform(sv, <Frame fr>)` called directly: `new_orb = orbit.copy(form="cartesian")`, the rotated and shifted
+values are written into ITS buffer, `new_orb._frame = new_frame` (not a property of StateVector: lands in `_data` under the key
+`_frame`; the `frame` entry keeps the old Frame), `new_orb.form = orbit.form` -/
+def transformObj (h : Heap) (a : Nat) (fr : Fr) : Res Nat :=
+  match getSV h a with
+  | none => (h, .error .bad)
+  | some s =>
+    match s.frame with
+    | .hill _ => (h, .error .runtime)          -- HillFrame.transform raises at once
+    | .reg x _ =>
+      match copyForm h a "cartesian" with
+      | (h, .error e) => (h, .error e)
+      | (h, .ok n) =>
+        match fr, getSV h n with
+        | .reg y _, some sn =>
+          let h := write h sn.buf (.buf (.xform x y sn.val))
+          let h := write h sn.data (.dict (insert "_frame" (.frame fr) sn.items))
+          match setFormTo h n s.form with
+          | (h, .ok ()) => (h, .ok n)
+          | (h, .error e) => (h, .error e)
+        | .hill _, _ => (h, .error .value)      -- orientation "QSW" is unknown to the rotation graph
+        | _, _ => (h, .error .bad)
+    | _ => (h, .error .bad)
 
 /-- `sv.as_orbit(p)`: `Orbit(np.array(self), **{**StateVector.copy(self)._data, "propagator": p})`;
 `p` is the address of the propagator -/
